@@ -784,15 +784,21 @@ impl WideProg {
                 // 12..15: negated terms; with `clear == false` these become in-place subtractions
                 12 => w.mul_signed(a, b, n + i, t0, t1, true),
                 13 => {
+                    // -a - b - k (a negative constant minus cells)
                     w.copy_signed(a, n + i, t1, true);
                     w.copy_signed(b, n + i, t1, true);
+                    w.addk(n + i, -k);
                 }
                 14 => {
                     // a*b - b*c
                     w.mul(a, b, n + i, t0, t1);
                     w.mul_signed(b, c3, n + i, t0, t1, true);
                 }
-                15 => w.mul_signed(a, a, n + i, t0, t1, true),
+                15 => {
+                    // -k - a*a
+                    w.addk(n + i, -k);
+                    w.mul_signed(a, a, n + i, t0, t1, true);
+                }
                 9 => w.mul3(a, b, c3, n + i, t0, t1, t2),
                 10 => {
                     // a*a*b + k
@@ -1171,8 +1177,224 @@ impl HiBitsProg {
 }
 
 pub fn hibits_prog() -> impl Strategy<Value = HiBitsProg> {
-    (vec(0u8..13, 1..4), vec((1u8..8, prop_oneof![2 => 0u16..300, 1 => 120u16..260], any::<bool>()), 1..5), any::<bool>(), proptest::option::weighted(0.5, (0u8..6, 0u8..12, 0u8..5)))
+    (vec(0u8..13, 1..4), vec((prop_oneof![4 => 1u8..8, 1 => Just(0u8)], prop_oneof![2 => 0u16..300, 1 => 120u16..260, 2 => 0u16..3], any::<bool>()), 1..5), any::<bool>(), proptest::option::weighted(0.5, (0u8..6, 0u8..12, 0u8..5)))
         .prop_map(|(inputs, terms, print_low, div)| HiBitsProg { inputs, terms, print_low, div })
+}
+
+// ---------------------------------------------------------------- G-shl
+
+/// One input byte multiplied up by a chain of small constant factors (mostly 2), one cell to the
+/// right per step, followed by a zero test of the result: values whose *low* bits are all zero
+/// while the cell is not (a * 2^32 at 64 bit), and multipliers 2^k beyond the 32-bit immediates.
+/// The canonical run costs about 3 * value steps, so long chains end with fate `Unknown`
+/// (C03 judges those by its differential vote); short ones are judged by the reference.
+#[derive(Clone, Debug)]
+pub struct ShlProg {
+    pub a: u8,
+    pub factors: Vec<u8>,
+    /// (position in the chain, addend): makes lower bits non-zero again
+    pub mid: Option<(u8, u8)>,
+    pub print_low: bool,
+    pub delta: i8,
+    pub test: u8,
+}
+
+impl ShlProg {
+    pub fn render(&self) -> String {
+        let mut w = W::new();
+        w.e(",");
+        let mut pos = 0i64;
+        for (i, f) in self.factors.iter().enumerate() {
+            if let Some((at, add)) = self.mid {
+                if at as usize % self.factors.len() == i {
+                    w.rep('+', 1 + (add % 3) as u64);
+                }
+            }
+            let f = [2u64, 2, 2, 2, 4, 3, 5, 6][(*f % 8) as usize];
+            w.e("[->");
+            w.rep('+', f);
+            w.e("<]>");
+            pos += 1;
+        }
+        w.cur = pos;
+        if self.print_low {
+            w.e(".");
+        }
+        let d = self.delta.clamp(-1, 1);
+        w.rep(if d < 0 { '-' } else { '+' }, d.unsigned_abs() as u64);
+        match self.test % 3 {
+            0 => w.e("[[-]>+<]>."),
+            1 => w.e(">+<[[-]>-<]>."),
+            _ => w.e("[>.<[-]]>+."),
+        }
+        w.s
+    }
+    pub fn input(&self) -> Vec<u8> {
+        vec![1 + self.a % 9]
+    }
+}
+
+pub fn shl_prog() -> impl Strategy<Value = ShlProg> {
+    (any::<u8>(), prop_oneof![2 => vec(0u8..4, 0..20), 3 => vec(prop_oneof![6 => 0u8..4, 1 => 4u8..8], 20..64)], proptest::option::weighted(0.3, (any::<u8>(), any::<u8>())), any::<bool>(), prop_oneof![4 => Just(0i8), 1 => Just(-1i8), 1 => Just(1i8)], 0u8..3)
+        .prop_map(|(a, factors, mid, print_low, delta, test)| ShlProg { a, factors, mid, print_low, delta, test })
+}
+
+// ---------------------------------------------------------------- G-chain
+
+/// One round body repeated `rounds` times over a handful of cells whose start values come from
+/// the input (so nothing folds to a constant): the shape on which symbolic substitution in the
+/// optimiser can multiply out. Used by C13 (growth of the compiled forms with the round count).
+#[derive(Clone, Debug)]
+pub struct ChainProg {
+    /// which of the six data cells are read from input (bit set), the others get small constants
+    pub from_input: u8,
+    /// template (0..=6) or, for 7.., the random body `ops`
+    pub template: u8,
+    pub sel: [u8; 4],
+    /// (kind, a, b, c, k) for the random body
+    pub ops: Vec<(u8, u8, u8, u8, u8)>,
+    pub rounds: u8,
+    pub print_each_round: bool,
+}
+
+impl ChainProg {
+    pub fn rounds(&self) -> u32 {
+        4 + (self.rounds as u32 % 45)
+    }
+    /// (prefix, body of one round, suffix)
+    pub fn parts(&self) -> (String, String, String) {
+        const N: i64 = 6;
+        let (t0, t1, t2) = (N, N + 1, N + 2);
+        let mut w = W::new();
+        for i in 0..N {
+            w.go(i);
+            if self.from_input >> i & 1 == 1 || i == (self.sel[0] as i64 % N) {
+                w.e(",")
+            } else {
+                w.addk(i, 1 + (i % 3))
+            }
+        }
+        w.go(0);
+        let prefix = std::mem::take(&mut w.s);
+        let c = pick4(self.sel, N);
+        let (p, q, u, v) = (c[0], c[1], c[2], c[3]);
+        match self.template % 10 {
+            0 => {
+                // p = p*p through two copies in different cells
+                w.clear(q);
+                w.clear(u);
+                w.copy(p, q, t1);
+                w.copy(p, u, t1);
+                w.clear(p);
+                w.mul(q, u, p, t0, t1);
+            }
+            1 => {
+                // p = (p+u)*(p+v)
+                w.clear(t2);
+                w.copy(p, t2, t1);
+                w.copy(u, t2, t1);
+                w.copy(v, p, t1);
+                w.clear(q);
+                w.mul(p, t2, q, t0, t1);
+                w.clear(p);
+                w.mov(q, p);
+                w.clear(t2);
+            }
+            2 => {
+                // p = p*q ; q = p*q (degrees grow like Fibonacci numbers)
+                w.clear(u);
+                w.mul(p, q, u, t0, t1);
+                w.clear(p);
+                w.mov(u, p);
+                w.mul(p, q, u, t0, t1);
+                w.clear(q);
+                w.mov(u, q);
+            }
+            3 => {
+                // p = p*p*p through three copies
+                w.clear(q);
+                w.clear(u);
+                w.clear(v);
+                w.copy(p, q, t1);
+                w.copy(p, u, t1);
+                w.copy(p, v, t1);
+                w.clear(p);
+                w.mul3(q, u, v, p, t0, t1, t2);
+            }
+            4 => {
+                // p = p*p + p
+                w.clear(q);
+                w.copy(p, q, t1);
+                w.mul(q, q, p, t0, t1);
+            }
+            5 => {
+                // p = p*p in place (the same cell twice)
+                w.clear(q);
+                w.mul(p, p, q, t0, t1);
+                w.clear(p);
+                w.mov(q, p);
+            }
+            6 => {
+                // p = p*q + u ; q = q + p
+                w.clear(v);
+                w.mul(p, q, v, t0, t1);
+                w.copy(u, v, t1);
+                w.clear(p);
+                w.mov(v, p);
+                w.copy(p, q, t1);
+            }
+            _ => {
+                for &(kind, a, b, d, k) in &self.ops {
+                    let (a, b, d) = ((a as i64) % N, (b as i64) % N, (d as i64) % N);
+                    match kind % 7 {
+                        0 => {
+                            if a != b {
+                                w.copy(a, b, t1)
+                            }
+                        }
+                        1 => {
+                            if a != b {
+                                w.mov(a, b)
+                            }
+                        }
+                        2 | 3 => {
+                            if d != a && d != b {
+                                w.mul(a, b, d, t0, t1)
+                            }
+                        }
+                        4 => w.clear(a),
+                        5 => w.addk(a, 1 + (k % 3) as i64),
+                        _ => {
+                            if a != b {
+                                w.clear(b);
+                                w.copy(a, b, t1)
+                            }
+                        }
+                    }
+                }
+            }
+        }
+        if self.print_each_round {
+            w.go(p);
+            w.e(".");
+        }
+        w.go(0);
+        let body = std::mem::take(&mut w.s);
+        for i in 0..N {
+            w.go(i);
+            w.e(".");
+        }
+        (prefix, body, w.s)
+    }
+    pub fn render(&self) -> String {
+        let (a, b, c) = self.parts();
+        format!("{a}{}{c}", b.repeat(self.rounds() as usize))
+    }
+}
+
+pub fn chain_prog() -> impl Strategy<Value = ChainProg> {
+    (any::<u8>(), prop_oneof![3 => 0u8..7, 2 => 7u8..10], any::<[u8; 4]>(), vec((0u8..7, 0u8..6, 0u8..6, 0u8..6, 0u8..3), 2..7), any::<u8>(), proptest::bool::weighted(0.15))
+        .prop_map(|(from_input, template, sel, ops, rounds, print_each_round)| ChainProg { from_input, template, sel, ops, rounds, print_each_round })
 }
 
 // ---------------------------------------------------------------- union
@@ -1188,6 +1410,8 @@ pub enum ProgAst {
     /// any program with non-command characters spliced in at character positions
     Commented(Box<ProgAst>, Vec<(u16, char)>),
     HiBits(HiBitsProg),
+    Chain(ChainProg),
+    Shl(ShlProg),
 }
 
 impl ProgAst {
@@ -1200,6 +1424,8 @@ impl ProgAst {
             ProgAst::Deep(p) => p.render(),
             ProgAst::Text(s) => s.clone(),
             ProgAst::HiBits(p) => p.render(),
+            ProgAst::Chain(p) => p.render(),
+            ProgAst::Shl(p) => p.render(),
             ProgAst::Commented(p, ins) => {
                 let mut chars: Vec<char> = p.render().chars().collect();
                 for (pos, ch) in ins {
@@ -1226,12 +1452,15 @@ impl ProgAst {
             ProgAst::Text(_) => "text",
             ProgAst::Commented(..) => "commented",
             ProgAst::HiBits(_) => "hibits",
+            ProgAst::Chain(_) => "chain",
+            ProgAst::Shl(_) => "shl",
         }
     }
     /// Some families fix the input stream they are paired with.
     pub fn fixed_input(&self) -> Option<Vec<u8>> {
         match self {
             ProgAst::HiBits(p) => Some(p.input()),
+            ProgAst::Shl(p) => Some(p.input()),
             _ => None,
         }
     }
@@ -1276,7 +1505,9 @@ pub fn prog(mix: Mix) -> BoxedStrategy<ProgAst> {
         v.push((mix.deep, deep_prog(400).prop_map(ProgAst::Deep).boxed()))
     }
     if mix.hibits > 0 {
-        v.push((mix.hibits, hibits_prog().prop_map(ProgAst::HiBits).boxed()))
+        v.push((mix.hibits, hibits_prog().prop_map(ProgAst::HiBits).boxed()));
+        // the multiply-up chains ride on the same weight (half as many)
+        v.push(((mix.hibits + 1) / 2, shl_prog().prop_map(ProgAst::Shl).boxed()))
     }
     if mix.commented > 0 {
         let inner = prop_oneof![raw_tokens(4, 60).prop_map(ProgAst::Raw), struct_prog(false).prop_map(ProgAst::Struct)];
